@@ -59,6 +59,30 @@ Fixpoint strcmp_sign (a b : bytes) : Z :=
   | x :: a', y :: b' => match (x ?= y)%N with Lt => (-1)%Z | Gt => 1%Z | Eq => strcmp_sign a' b' end
   end.
 
+(** * equal_icase / less_icase (equal_icase.cpp, less_icase.cpp; string_view overloads; less_icase with
+    fixes/C19/09 applied: characters compared as unsigned char, consistently with compare_icase) *)
+Fixpoint all2b (eq : N -> N -> bool) (a b : bytes) : bool :=
+  match a, b with
+  | [], [] => true
+  | x :: a', y :: b' => eq x y && all2b eq a' b'
+  | _, _ => false
+  end.
+
+(* if (a.size() != b.size()) return false; return std::equal(..., to_lower(c1) == to_lower(c2)) *)
+Definition equal_icase (a b : bytes) : bool :=
+  if Nat.eqb (length a) (length b) then all2b (fun x y => to_lower_char x =? to_lower_char y) a b else false.
+
+(* std::lexicographical_compare(a, b, [](c1, c2) { return to_lower(c1) < to_lower(c2); }) *)
+Fixpoint less_icase (a b : bytes) : bool :=
+  match a, b with
+  | _, [] => false
+  | [], _ :: _ => true
+  | x :: a', y :: b' =>
+      if to_lower_char x <? to_lower_char y then true
+      else if to_lower_char y <? to_lower_char x then false
+      else less_icase a' b'
+  end.
+
 (** * starts_with / ends_with / contains *)
 Fixpoint prefixb_by (eq : N -> N -> bool) (p s : bytes) : bool :=
   match p, s with
